@@ -51,6 +51,23 @@ def mutants_of_line(text):
             if a in ("uid", "gid", "atime", "mtime", "offset") and not re.match(r"[\w.]*\b%s\b" % a, code[m.start():]):
                 continue
             out.append(("%s->%s" % (a, b), text[:m.start()] + b + text[m.end():]))
+    if os.environ.get("MUT_EXTRA"):
+        for m in re.finditer(r" \| (?=libc::|[A-Z][A-Za-z]*::[A-Z_]+|[A-Z_]{3,})", code):
+            out.append(("|->&", text[:m.start()] + " & " + text[m.end():]))
+        for m in re.finditer(r"(?<=[\w)\]]) \+ (?=[\w(])", code):
+            out.append(("+->-", text[:m.start()] + " - " + text[m.end():]))
+        for m in re.finditer(r"(?<=[\w)\]]) - (?=[\w(])", code):
+            out.append(("-->+", text[:m.start()] + " + " + text[m.end():]))
+        for m in re.finditer(r"\((\w+(?:\.\w+)*), (\w+(?:\.\w+)*)\)", code):
+            if m.group(1) != m.group(2) and not m.group(1)[0].isdigit() and not m.group(2)[0].isdigit():
+                out.append(("swap-args", text[:m.start()] + "(%s, %s)" % (m.group(2), m.group(1)) + text[m.end():]))
+        for m in re.finditer(r"\|= ", code):
+            out.append(("|=->=", text[:m.start()] + "= " + text[m.end():]))
+        for m in re.finditer(r"\b([2-9]|[1-9]\d+)\b(?!\.)", code):
+            if "0o" not in code and "0x" not in code and "[" not in code[:m.start()][-2:]:
+                out.append(("lit+1", text[:m.start()] + str(int(m.group(1)) + 1) + text[m.end():]))
+        for m in re.finditer(r"\breturn Ok\(\(\)\);", code):
+            pass
     # dropped statement: a call statement whose value is unused
     if re.match(r"^\s+[\w.:]+(\(.*\))+\??;\s*$", code) and "let " not in code and "return" not in code:
         ind = re.match(r"^\s*", text).group(0)
@@ -109,7 +126,7 @@ def in_test_code(src, idx):
 
 
 def gen(per_fn):
-    random.seed(20260923)
+    random.seed(int(os.environ.get("MUT_SEED", "20260923")))
     sp = spans()
     out = []
     for f, lm in sorted(sp.items()):
